@@ -22,6 +22,7 @@ type Storer struct {
 	ProfileKeys     []string       // the application's declared profile fields
 	ZoneLess        bool           // timestamp columns keep no zone: wall-clock fields in, UTC out
 	FoldPIDs        bool           // Load finds an account under any spelling that lower-cases to its identifier
+	SeparateEmail   bool           // the user type keeps its e-mail address apart from the primary identifier (a username site): PutPID does not fill it
 	PersistAll      bool           // PutArbitrary stores everything it is handed
 	TimeLoc         *time.Location // Location of the timestamps handed out by Load* (nil: as stored)
 	OAuth2Confirmed bool           // new OAuth2 users are created confirmed (as authboss-sample does)
@@ -272,6 +273,7 @@ func (s *Storer) Load(ctx context.Context, key string) (authboss.User, error) {
 func (s *Storer) prep(u *User) *User {
 	u.profileKeys = s.ProfileKeys
 	u.persistAll = s.PersistAll
+	u.separateEmail = s.SeparateEmail
 	if s.TimeLoc != nil {
 		// like a database driver that hands timestamps back in the connection's zone: same instants,
 		// another Location
